@@ -1,5 +1,312 @@
 package c11
 
-import "verifharness/fw"
+import (
+	"fmt"
+	"math/rand"
+	"os"
+	"path/filepath"
+	"strings"
 
-func runOffice(c *fw.Ctx, dir string) {}
+	"github.com/tsawler/tabula"
+
+	"verifharness/fw"
+	"verifharness/gen/logical"
+	"verifharness/gen/odf"
+	"verifharness/gen/ooxml"
+)
+
+// DOCX / ODT: flow documents have no bands. The mechanism the property names
+// is "a body paragraph is removed only if it equals a line of a header/footer
+// part". Ground truth: every body paragraph is
+//   unique      its own token, unrelated to the parts
+//   copy        literally equal to a header or footer line (may be removed)
+//   near        contains / is contained in such a line but is not equal to it
+//               (must stay); taggable near-misses carry an extra unique token
+//
+// Oracle: (1) tokens with exclusion are a subsequence of the tokens without;
+// (2) per token, no more occurrences disappear than there are literal copies
+// (the statement does not separate header from footer lines, so a copy of a
+// footer line may go under ExcludeHeaders); a unique token never disappears;
+// (3) without literal copies in the body the output is unchanged.
+// Nothing is required to disappear (clause (4) speaks of pages).
+
+type offPara struct {
+	Kind      string // unique | copy | near-<how>
+	Container string // para | heading | list | cell
+	Text      string
+	Tokens    []string
+}
+
+type offDoc struct {
+	Header, Footer []string // nil = no part
+	Body           []offPara
+	Features       map[string]bool
+}
+
+func plainPara(text string) logical.Para {
+	tok := ""
+	if t := fw.FindTokens(text); len(t) > 0 {
+		tok = t[0]
+	}
+	return logical.Para{Runs: []logical.Run{{Items: []logical.Item{{Kind: logical.KText, Text: text, Token: tok}}}}}
+}
+
+func genOffice(r *rand.Rand) *offDoc {
+	d := &offDoc{Features: map[string]bool{}}
+	tk := fw.NewTokens(r)
+	part := func() []string {
+		switch r.Intn(5) {
+		case 0:
+			return nil
+		case 1:
+			return []string{phrase(r, tk.Next(), 1+r.Intn(3))}
+		default:
+			n := 1 + r.Intn(3)
+			var out []string
+			for i := 0; i < n; i++ {
+				out = append(out, phrase(r, tk.Next(), r.Intn(4)))
+			}
+			return out
+		}
+	}
+	d.Header, d.Footer = part(), part()
+	var lines []string
+	lines = append(lines, d.Header...)
+	lines = append(lines, d.Footer...)
+	if d.Header != nil {
+		d.Features["part.header"] = true
+	}
+	if d.Footer != nil {
+		d.Features["part.footer"] = true
+	}
+	// per part line: how the body refers to it
+	type use struct {
+		line string
+		how  string
+	}
+	var uses []use
+	for _, l := range lines {
+		switch r.Intn(6) {
+		case 0, 1: // not referenced
+		case 2:
+			uses = append(uses, use{l, "copy"})
+			if r.Intn(3) == 0 {
+				uses = append(uses, use{l, "copy"})
+			}
+		case 3:
+			uses = append(uses, use{l, "copy"}, use{l, "near-tagged"})
+		case 4:
+			uses = append(uses, use{l, "near-tagged"})
+			if r.Intn(2) == 0 {
+				uses = append(uses, use{l, "near-tagged"})
+			}
+		case 5:
+			uses = append(uses, use{l, "near-bare"})
+		}
+	}
+	n := 4 + r.Intn(9)
+	for i := 0; i < n; i++ {
+		d.Body = append(d.Body, offPara{Kind: "unique", Text: phrase(r, tk.Next(), 1+r.Intn(6))})
+	}
+	for _, u := range uses {
+		p := offPara{Kind: u.how}
+		switch u.how {
+		case "copy":
+			p.Text = u.line
+		case "near-tagged": // the line plus something, with its own token
+			extra := tk.Next()
+			switch r.Intn(4) {
+			case 0:
+				p.Text = u.line + " " + extra
+			case 1:
+				p.Text = extra + " " + u.line
+			case 2:
+				p.Text = strings.ToUpper(u.line[:1]) + u.line[1:] + " " + extra
+			default:
+				p.Text = u.line + ". " + extra
+			}
+		case "near-bare": // differs from the line without room for another token
+			w := strings.Fields(u.line)
+			switch k := r.Intn(4); {
+			case k == 0 && len(w) > 1:
+				p.Text = strings.Join(w[:len(w)-1], " ") // strict prefix … may drop the token, fine
+			case k == 1:
+				p.Text = u.line + "."
+			case k == 2:
+				p.Text = strings.ToUpper(u.line)
+			default:
+				p.Text = u.line + " " + words[r.Intn(len(words))]
+			}
+			if p.Text == u.line || strings.TrimSpace(p.Text) == "" {
+				p.Text = u.line + " also"
+			}
+		}
+		d.Features["body."+u.how] = true
+		pos := r.Intn(len(d.Body) + 1)
+		d.Body = append(d.Body[:pos], append([]offPara{p}, d.Body[pos:]...)...)
+	}
+	for i := range d.Body {
+		p := &d.Body[i]
+		p.Tokens = fw.FindTokens(strings.ToLower(p.Text))
+		p.Container = []string{"para", "para", "para", "para", "heading", "list"}[r.Intn(6)]
+		d.Features["container."+p.Container] = true
+	}
+	return d
+}
+
+func (d *offDoc) logical(r *rand.Rand) *logical.Doc {
+	ld := &logical.Doc{HasStyles: r.Intn(2) == 0}
+	for _, l := range d.Header {
+		ld.Header = append(ld.Header, plainPara(l))
+	}
+	for _, l := range d.Footer {
+		ld.Footer = append(ld.Footer, plainPara(l))
+	}
+	for i := 0; i < len(d.Body); i++ {
+		p := d.Body[i]
+		pp := plainPara(p.Text)
+		switch p.Container {
+		case "heading":
+			ld.Blocks = append(ld.Blocks, logical.Block{Kind: logical.BHeading, Heading: &logical.Heading{Level: 1 + r.Intn(3), How: "builtin", Para: pp}})
+		case "list":
+			l := &logical.List{}
+			l.Items = append(l.Items, logical.ListItem{Para: pp})
+			ld.Blocks = append(ld.Blocks, logical.Block{Kind: logical.BList, List: l})
+		default:
+			ld.Blocks = append(ld.Blocks, logical.Block{Kind: logical.BPara, Para: &pp})
+		}
+	}
+	return ld
+}
+
+func (d *offDoc) describe() []string {
+	var out []string
+	for _, l := range d.Header {
+		out = append(out, fmt.Sprintf("header line %q", l))
+	}
+	for _, l := range d.Footer {
+		out = append(out, fmt.Sprintf("footer line %q", l))
+	}
+	for _, p := range d.Body {
+		out = append(out, fmt.Sprintf("body %s/%s %q", p.Kind, p.Container, p.Text))
+	}
+	return out
+}
+
+func officeView(path, mode, api string) (string, error) {
+	e := applyMode(tabula.Open(path), mode)
+	defer e.Close()
+	if api == "Markdown" {
+		s, _, err := e.ToMarkdown()
+		return s, err
+	}
+	s, _, err := e.Text()
+	return s, err
+}
+
+func runOfficeCase(c *fw.Ctx, dir string, i int) {
+	id := fmt.Sprintf("office:%d", i)
+	if !c.Want(id) {
+		return
+	}
+	r := c.Rand("office", i)
+	d := genOffice(r)
+	ld := d.logical(r)
+	format := []string{"docx", "odt"}[i%2]
+	var data []byte
+	if format == "docx" {
+		data = ooxml.WriteDocx(ld, ooxml.DocxOptions{Store: r.Intn(4) == 0, Pretty: r.Intn(3) == 0})
+	} else {
+		ld2 := *ld
+		for bi := range ld2.Blocks { // ODT heading spelling
+			if ld2.Blocks[bi].Kind == logical.BHeading {
+				h := *ld2.Blocks[bi].Heading
+				h.How = "h"
+				ld2.Blocks[bi].Heading = &h
+			}
+		}
+		data = odf.WriteODT(&ld2, odf.Options{Pretty: r.Intn(3) == 0})
+	}
+	path := filepath.Join(dir, fmt.Sprintf("o%06d.%s", i, format))
+	if err := os.WriteFile(path, data, 0o644); err != nil {
+		c.Inconclusive("cannot write scratch file: " + err.Error())
+		return
+	}
+	defer os.Remove(path)
+	copies := map[string]int{} // token -> literal copies carrying it
+	exp := map[string]int{}
+	nCopies := 0
+	for _, p := range d.Body {
+		for _, t := range p.Tokens {
+			exp[t]++
+			if p.Kind == "copy" {
+				copies[t]++
+			}
+		}
+		if p.Kind == "copy" {
+			nCopies++
+		}
+	}
+	c.Case(format+"|"+strings.Join(d.describe(), "|"), (d.Header != nil || d.Footer != nil) && nCopies > 0)
+	c.Seen("office_format", format)
+	for f := range d.Features {
+		c.Seen("office_feature", f)
+	}
+	detail := map[string]any{"format": format, "document": d.describe()}
+	for _, api := range []string{"Text", "Markdown"} {
+		var base string
+		var berr error
+		if !c.Guard("office", id, detail, func() { base, berr = officeView(path, "", api) }) || berr != nil {
+			c.Count("office_baseline_error", 1)
+			continue
+		}
+		U := fw.FindTokens(strings.ToLower(base))
+		cu := counts(U)
+		okBase := true
+		for t, n := range cu {
+			if n > exp[t] {
+				okBase = false
+			}
+		}
+		if !okBase {
+			c.Count("office_baseline_mismatch", 1)
+			continue
+		}
+		for _, mode := range []string{"H", "F", "HF", "H+F"} {
+			mode := mode
+			c.Guard("office", id, detail, func() {
+				got, err := officeView(path, mode, api)
+				c.Count("office_comparisons", 1)
+				cls := fmt.Sprintf("office/%s/%s/", format, api)
+				if err != nil {
+					c.Fail("", cls+"error", id, fmt.Sprintf("%s %s under %s fails with exclusion only: %v", format, api, mode, err), detail)
+					return
+				}
+				F := fw.FindTokens(strings.ToLower(got))
+				cf := counts(F)
+				c.Count("office_tokens_compared", int64(len(U)))
+				c.Count("office_tokens_deleted", int64(len(U)-len(F)))
+				if !isSubsequence(F, U) {
+					c.Fail("", cls+"not-subsequence", id, fmt.Sprintf("%s %s under %s: tokens with exclusion are not a subsequence of the tokens without: %s vs %s", format, api, mode, short(F), short(U)), detail)
+					return
+				}
+				for t, n := range cu {
+					if del := n - cf[t]; del > copies[t] {
+						c.Fail("", cls+"deleted-non-copy", id, fmt.Sprintf("%s %s under %s: %d paragraph(s) with token %s disappeared but only %d body paragraph(s) equal a header/footer line", format, api, mode, del, t, copies[t]), detail)
+						return
+					}
+				}
+				if nCopies == 0 && got != base {
+					c.Fail("", cls+"changed-without-copies", id, fmt.Sprintf("%s %s under %s: output changed although no body paragraph equals a header/footer line", format, api, mode), detail)
+				}
+			})
+		}
+	}
+}
+
+func runOffice(c *fw.Ctx, dir string) {
+	n := c.N(600, 8000)
+	c.Parallel(n, func(i int) { runOfficeCase(c, dir, i) })
+	m := c.N(300, 4000)
+	c.Parallel(m, func(i int) { runPptxCase(c, dir, i) })
+}
